@@ -30,6 +30,11 @@ def bounds(tier):
     return "50688 recipes; redirect chains of length 0..5 x limits {0,1,2,default,5} x 4 endings x 5 redirect statuses; 3 fault kinds (EOF, timeout, reset) at every byte, 2 hops"
 
 
+def trace_variant(desc, tier):
+    """Every task is run a second time with trace logging enabled (enableTrace(True) is a process-wide configuration)."""
+    return True
+
+
 def tasks(tier, seed):
     ts = []
     for si in range(len(STATUSES)):
